@@ -1155,6 +1155,7 @@ def run_case(case, root):
         geo_after = [geo_props(regs[i], intern) for i in sel]
         out["geo"] = {"before": geo_before, "after": geo_after}
         out["others"] = {"before": oth_before, "after": [other_props(regs[i], intern) for i in sel]}
+        out["kname"] = intern("p:nc")
         changed = []
         for i, (a, b) in enumerate(zip(meta_before, meta_after)):
             if a != b:
